@@ -474,6 +474,10 @@ PTRef Interpret::parseTerm(const ASTNode& term, LetRecords& letRecords) {
         auto node_iter = term.children->begin();
         vec<PTRef> args;
         const char* name = (**node_iter).getValue(); node_iter++;
+        if (name == nullptr) {
+            reportError("a qualified identifier in function position is not supported");
+            return PTRef_Undef;
+        }
         // Parse the arguments
         for (; node_iter != term.children->end(); node_iter++) {
             PTRef arg_term = parseTerm(**node_iter, letRecords);
